@@ -113,6 +113,75 @@ Theorem C10_right_key_offers :
 Proof. exact right_key_offers. Qed.
 Print Assumptions C10_right_key_offers.
 
+(* ---- one transport OBJECT over time: open, close, open again, ... (any number of opens) ---- *)
+
+(* the attributes the library transports store on the object are the model's: constructor arguments,
+   socket, library session, channel / streams — no key, no verdict (regenerated from the source) *)
+Theorem C10_object_state_as_modelled :
+  gen_state_paramiko = object_state Paramiko /\ gen_state_ssh2 = object_state Ssh2 /\
+  gen_state_asyncssh = object_state Asyncssh.
+Proof. vm_compute. repeat split. Qed.
+Print Assumptions C10_object_state_as_modelled.
+
+(* nothing remembered from an earlier handshake takes part: in whatever state the object is, the
+   opens of a history produce the events of first opens in their own scenarios *)
+Theorem C10_history_independent :
+  forall l h st, run_history (step_open true l) st h = map (fun s => (s, open_trace true l s)) (opens h).
+Proof. exact (history_independent true). Qed.
+Print Assumptions C10_history_independent.
+
+(* the per-open guarantee for EVERY history (server key, known_hosts content and what the server accepts
+   may change between the opens) and every state the object starts in *)
+Theorem C10_history_protects_credentials :
+  forall l h st s tr,
+    In (s, tr) (run_history (step_open true l) st h) ->
+    strict s = true -> key_bad s = true -> (l = Asyncssh -> agrees s) ->
+    no_offer tr = true /\ (handshake_ok s = true -> ends_with AuthenticationFailed tr = true).
+Proof. exact history_protects. Qed.
+Print Assumptions C10_history_protects_credentials.
+
+Theorem C10_history_offer_only_to_known_key :
+  forall l h st s tr,
+    In (s, tr) (run_history (step_open true l) st h) ->
+    strict s = true -> (l = Asyncssh -> agrees s) -> no_offer tr = false -> entry s = Some (skey s).
+Proof. exact history_offer_only_to_known_key. Qed.
+Print Assumptions C10_history_offer_only_to_known_key.
+
+(* the same with lookup / asyncssh's matcher as parameters: per open the file as it is at that open *)
+Theorem C10_history_strict_protects_credentials :
+  forall (khfile host : Type) (lookup : khfile -> host -> option bytes)
+         (lib_verdict : khfile -> host -> bytes -> verdict),
+    (forall f h k sk, lookup f h = Some k -> lib_verdict f h sk = Trusted -> k = sk) ->
+    forall l h w st s tr,
+      In (s, tr) (run_history (step_open true l) st (hist_of khfile host lookup lib_verdict h w)) ->
+      exists f sk c, In (f, sk, c) w /\ s = scen_of khfile host lookup lib_verdict f h sk c /\
+        (c_strict c = true ->
+         (lookup f h = None \/ exists k, lookup f h = Some k /\ k <> sk) ->
+         no_offer tr = true /\ (c_handshake c = true -> ends_with AuthenticationFailed tr = true)).
+Proof. exact history_strict_protects_credentials. Qed.
+Print Assumptions C10_history_strict_protects_credentials.
+
+(* it IS a statement about histories: a transport that verifies a key remembered on the object (the
+   first it saw / the one of the previous handshake) violates it on open-close-open *)
+Theorem C10_history_remembered_key_refuted :
+  ~ hist_full (step_open_first_seen Paramiko) /\ ~ hist_full (step_open_prev_seen Paramiko) /\
+  (forall l, hist_full (step_open true l)).
+Proof. exact (conj first_seen_refuted (conj prev_seen_refuted hist_full_as_written)). Qed.
+Print Assumptions C10_history_remembered_key_refuted.
+
+(* system transport: the argv of every open of one object (open_cmd is kept on the object) *)
+Theorem C10_system_history_strict :
+  forall a n argv, a_strict a = true -> host_ok (a_host a) = true -> In argv (sys_history [] a n) ->
+    effective kw_strict argv = Some s_yes.
+Proof. exact sys_history_strict. Qed.
+Print Assumptions C10_system_history_strict.
+
+Theorem C10_system_history_known_hosts :
+  forall a n argv p, a_strict a = true -> host_ok (a_host a) = true -> a_known a = FPath p -> path_ok p = true ->
+    In argv (sys_history [] a n) -> effective kw_ukhf argv = Some p.
+Proof. exact sys_history_known_hosts. Qed.
+Print Assumptions C10_system_history_known_hosts.
+
 (* ---- system transport: what ssh(1) is asked, for ALL arguments ---- *)
 Theorem C10_system_strict_effective :
   forall a, a_strict a = true -> host_ok (a_host a) = true ->
